@@ -149,7 +149,7 @@ def run_native(fn: Callable, args: Dict[str, Any]):
 
 
 def explore(qid: str, fn: Callable, *, timeout: float, per_path_timeout: float = 30.0,
-            max_cex: int = 1, max_samples: int = 4, stop_on_cex: bool = True, max_paths: int = 0) -> QueryResult:
+            max_cex: int = 1, max_samples: int = 6, stop_on_cex: bool = True, max_paths: int = 0) -> QueryResult:
     """Symbolically execute `fn` over all values of its annotated parameters."""
     res = QueryResult(qid)
     sig = inspect.signature(fn)
